@@ -701,6 +701,7 @@ int vorbis_synthesis_restart(vorbis_dsp_state *v){
   v->sequence=-1;
   v->eofflag=0;
   ((private_state *)(v->backend_state))->sample_count=-1;
+  ((private_state *)(v->backend_state))->lapout_done=0;
 
   return(0);
 }
@@ -817,6 +818,7 @@ int vorbis_synthesis_blockin(vorbis_dsp_state *v,vorbis_block *vb){
       v->centerW=0;
     else
       v->centerW=n1;
+    b->lapout_done=0;
 
     /* deal with initial packet state; we do this using the explicit
        pcm_returned==-1 flag otherwise we're sensitive to first block
@@ -963,6 +965,7 @@ int vorbis_synthesis_read(vorbis_dsp_state *v,int n){
 int vorbis_synthesis_lapout(vorbis_dsp_state *v,float ***pcm){
   vorbis_info *vi=v->vi;
   codec_setup_info *ci=vi->codec_setup;
+  private_state *b=v->backend_state;
   int hs=ci->halfrate_flag;
 
   int n=ci->blocksizes[v->W]>>(hs+1);
@@ -1003,8 +1006,9 @@ int vorbis_synthesis_lapout(vorbis_dsp_state *v,float ***pcm){
      block (init, restart or seek) there is no lapped data yet: the
      only thing held is that block's second half at n1, and nothing
      is to be moved */
-  if(v->pcm_returned>=n1){
-    /* nothing to do */
+  if(v->pcm_returned>=n1 || b->lapout_done){
+    /* nothing to do; a second call for the same block must not shift
+       the data again */
   }else if((v->lW^v->W)==1){
     /* long/short or short/long */
     for(j=0;j<vi->channels;j++){
@@ -1028,6 +1032,8 @@ int vorbis_synthesis_lapout(vorbis_dsp_state *v,float ***pcm){
       v->pcm_current+=n1-n0;
     }
   }
+
+  b->lapout_done=1;
 
   if(pcm){
     int i;
